@@ -181,6 +181,22 @@ pub fn format12(map: &BTreeMap<u32, u16>, language: u32, ch: &mut Chooser) -> En
             e.classes.insert("f12:null-group");
         }
     }
+    // the groups never overlap, so their order carries no information: a reader that scans them
+    // (as allsorts does) serves the same mapping in any order; sometimes write them out of order
+    if groups.len() >= 2 && ch.chance(1, 8) {
+        let n = groups.len();
+        match ch.pick(3) {
+            0 => groups.reverse(),
+            1 => groups.rotate_left(1 + ch.pick(n - 1)),
+            _ => {
+                let (i, j) = (ch.pick(n), ch.pick(n));
+                groups.swap(i, j);
+            }
+        }
+        if groups.windows(2).any(|w| w[0].0 > w[1].0) {
+            e.classes.insert("f12:groups-out-of-order");
+        }
+    }
     let mut b = Buf::new();
     b.u16(12).u16(0).u32(16 + 12 * groups.len() as u32).u32(language).u32(groups.len() as u32);
     for g in &groups {
